@@ -442,5 +442,84 @@ def run(ctx):
     vo = nf.functions.get("vector_obj")
     params = [a.arg for a in vo.args.args] if vo is not None else []
     ctx.ob("C07.obj-overload", "vector_obj parameters", params[1:] == NAMES19 and params[:1] == ["unrecognized_argument"], f"parameters {params}", None, NUMBA_OBJ)
+    # ---- (8) Awkward-Numba typers ---------------------------------------------------------------------------------
+    import itertools
+    from ..peval import BUILTINS
+    from ..ufuncs import extract_awkward_behaviors
+    ctx.rule("C07.awkward-typer", "_numba_typer_<Name> builds <Flavor>Object<N>DType from _aztype_of/_ltype_of/_ttype_of with is_momentum = (Flavor is Momentum), and is registered for that record name")
+    ctx.rule("C07.awkward-typer-fields", "_aztype_of/_ltype_of/_ttype_of pick, for every subset of a group's field names, a coordinate class whose components come from spellings of its own coordinates (synonyms only when is_momentum), else TypingError")
+    af = facts("src/vector/backends/awkward.py", ctx.repo)
+    tab = extract_awkward_behaviors(ctx.repo)
+    for flavor in ("Vector", "Momentum"):
+        for d in (2, 3, 4):
+            name = f"{flavor}{d}D"
+            fn = af.functions.get(f"_numba_typer_{name}")
+            if fn is None:
+                raise AnalysisError(f"anchor _numba_typer_{name} missing")
+            ret = [n for n in ast.walk(fn) if isinstance(n, ast.Return)]
+            flag = "True" if flavor == "Momentum" else "False"
+            want_args = [f"{h}(viewtype.arrayviewtype.type, {flag})" for h in ("_aztype_of", "_ltype_of", "_ttype_of")[: d - 1]]
+            ok = len(ret) == 1 and isinstance(ret[0].value, ast.Call) and unparse(ret[0].value.func) == f"vector.backends._numba_object.{flavor}Object{d}DType" \
+                and [unparse(a) for a in ret[0].value.args] == want_args
+            ctx.ob("C07.awkward-typer", f"_numba_typer_{name}", ok,
+                   f"returns `{unparse(ret[0].value)[:160] if ret else None}`; expected {flavor}Object{d}DType({', '.join(want_args)})", None, f"src/vector/backends/awkward.py:{fn.lineno}")
+            ent = tab.get(("'__numba_typer__'", repr(name)))
+            ctx.ob("C07.awkward-typer", f"behavior['__numba_typer__', {name!r}]", ent is not None and ent[1] == f"_numba_typer_{name}", f"is {ent[1] if ent else None}", None, "src/vector/backends/awkward.py")
+            ent = tab.get(("'__numba_lower__'", repr(name)))
+            ctx.ob("C07.awkward-typer", f"behavior['__numba_lower__', {name!r}]", ent is not None and ent[1] == "_numba_lower", f"is {ent[1] if ent else None}", None, "src/vector/backends/awkward.py")
+    SYN = {"px": "x", "py": "y", "pt": "rho", "pz": "z", "E": "t", "e": "t", "energy": "t", "M": "tau", "m": "tau", "mass": "tau"}
+    groups = {
+        "_aztype_of": (["x", "px", "y", "py", "rho", "pt", "phi"], {"AzimuthalObjectXY": ("x", "y"), "AzimuthalObjectRhoPhi": ("rho", "phi")}),
+        "_ltype_of": (["z", "pz", "theta", "eta"], {"LongitudinalObjectZ": ("z",), "LongitudinalObjectTheta": ("theta",), "LongitudinalObjectEta": ("eta",)}),
+        "_ttype_of": (["t", "E", "e", "energy", "tau", "M", "m", "mass"], {"TemporalObjectT": ("t",), "TemporalObjectTau": ("tau",)}),
+    }
+    envA = W.module_env("vector.backends.awkward")
+    BUILTINS["__arrtype__"] = lambda I, a, k, n: Opaque(("arrtype", a[0].tag if isinstance(a[0], Opaque) else repr(a[0])), "notnone")
+    saved = envA.get("_arraytype_of")
+    envA["_arraytype_of"] = ("builtin", "__arrtype__")
+    try:
+        for fname, (gnames, classes) in groups.items():
+            f = W.lookup_global("vector.backends.awkward", fname, I0)
+            n_sub = 0
+            for k in range(0, len(gnames) + 1):
+                for S in itertools.combinations(gnames, k):
+                    for mom in (False, True):
+                        n_sub += 1
+                        got = []
+                        I = Interp(W, ext_models={"numba.typeof": lambda I, a, k: (got.append(a[0]) or Opaque("typ"))})
+                        rt = Inst(W.classes["VectorArray4D"], {"fields": list(S), "contenttypes": [Opaque(("ct", n)) for n in S], "__name__": "rt"}, origin="abstract")
+                        avail = {}
+                        for n in S:
+                            g = SYN.get(n, n) if mom else n
+                            avail.setdefault(g, []).append(n)
+                        complete = [c for c, fs in classes.items() if all(x in avail for x in fs)]
+                        key = f"{fname}[{','.join(S) or '(none)'}; is_momentum={mom}]"
+                        try:
+                            I.call_function(f, [rt, mom], {})
+                            inst = got[0] if got else None
+                            ok = isinstance(inst, Inst) and inst.cls.name in complete
+                            msg = f"builds {inst!r}; complete coordinate sets available: {complete}"
+                            if ok:
+                                for fld in classes[inst.cls.name]:
+                                    v = inst.attrs.get(fld)
+                                    src = None
+                                    t = v.tag if isinstance(v, Opaque) else None
+                                    while isinstance(t, tuple):
+                                        if t and t[0] == "ct":
+                                            src = t[1]
+                                            break
+                                        t = next((x for x in t[1:] if isinstance(x, tuple)), None)
+                                    if src not in avail.get(fld, []):
+                                        ok = False
+                                        msg = f"{inst.cls.name}.{fld} is typed from field {src!r}, not a spelling of {fld}"
+                        except PyRaise as e:
+                            ok = not complete and e.exc.endswith("TypingError")
+                            msg = f"raises {e.exc} although {complete} is available" if complete else f"raises {e.exc}"
+                        except Undecided as e:
+                            ok, msg = False, f"undecided: {e}"
+                        ctx.ob("C07.awkward-typer-fields", key, ok, msg, None, "src/vector/backends/awkward.py")
+            ctx.anchor(f"{fname} subsets", n_sub, 2 ** len(gnames) * 2)
+    finally:
+        envA["_arraytype_of"] = saved
     ctx.decline("Numba typing/lowering/boxing/unboxing, LLVM code generation")
     ctx.decline("result wrapping inside each overload beyond flavor/dimension helpers; the Awkward-Numba typer and lowering")
